@@ -286,45 +286,45 @@ macro_rules! proofs {
 }
 
 // ---- i64 / Z7 registry (generated from measurements, see DESIGN.md section 3.4) ----
-// @harness c18_vec_i64_rank_1x1_e3 tier=quick unwind=6 block=128 mem=8 timeout=1200
-// @harness c18_vec_i64_rank_1x2_e3 tier=quick unwind=6 block=128 mem=17 timeout=1200
-// @harness c18_vec_i64_rank_2x1_e3 tier=quick unwind=6 block=128 mem=8 timeout=1200
-// @harness c18_vec_i64_rank_2x2_e2 tier=thorough unwind=6 block=128 mem=23 timeout=3600
-// @harness c18_vec_i64_rank_2x2_e2_reach tier=thorough unwind=6 block=128 mem=23 timeout=3600 twin
-// @harness c18_vec_i64_rank_1x3_e3 tier=thorough unwind=6 block=128 mem=40 timeout=3600
-// @harness c18_vec_i64_rank_3x1_e3 tier=thorough unwind=6 block=128 mem=40 timeout=3600
+// @harness c18_vec_i64_rank_1x1_e3 tier=quick unwind=6 block=128 mem=6 timeout=1200
+// @harness c18_vec_i64_rank_1x2_e3 tier=quick unwind=6 block=128 mem=12 timeout=1200
+// @harness c18_vec_i64_rank_2x1_e3 tier=quick unwind=6 block=128 mem=6 timeout=1200
+// @harness c18_vec_i64_rank_2x2_e2 tier=thorough unwind=6 block=128 mem=16 timeout=3600
+// @harness c18_vec_i64_rank_2x2_e2_reach tier=thorough unwind=6 block=128 mem=16 timeout=3600 twin
+// @harness c18_vec_i64_rank_1x3_e3 tier=thorough unwind=6 block=128 mem=40 timeout=3600 stretch
+// @harness c18_vec_i64_rank_3x1_e3 tier=thorough unwind=6 block=128 mem=40 timeout=3600 stretch
 // @harness c18_vec_i64_rank_2x3_e2 tier=thorough unwind=6 block=128 mem=40 timeout=3600 stretch
 // @harness c18_vec_i64_rank_3x2_e2 tier=thorough unwind=6 block=128 mem=40 timeout=3600 stretch
-// @harness c18_vec_i64_null_1x2_e3 tier=quick unwind=6 block=128 mem=11 timeout=2138
-// @harness c18_vec_i64_null_2x1_e3 tier=thorough unwind=6 block=128 mem=38 timeout=2835
-// @harness c18_vec_i64_null_2x2_e2 tier=thorough unwind=6 block=128 mem=40 timeout=3600
-// @harness c18_vec_i64_null_2x2_e2_reach tier=thorough unwind=6 block=128 mem=40 timeout=3600 twin
+// @harness c18_vec_i64_null_1x2_e3 tier=quick unwind=6 block=128 mem=8 timeout=2284
+// @harness c18_vec_i64_null_2x1_e3 tier=thorough unwind=6 block=128 mem=27 timeout=2835
+// @harness c18_vec_i64_null_2x2_e2 tier=thorough unwind=6 block=128 mem=40 timeout=3600 stretch
+// @harness c18_vec_i64_null_2x2_e2_reach tier=thorough unwind=6 block=128 mem=40 timeout=3600 twin stretch
 // @harness c18_vec_i64_null_2x3_e2 tier=thorough unwind=6 block=128 mem=40 timeout=3600 stretch
 // @harness c18_vec_i64_null_3x2_e2 tier=thorough unwind=6 block=128 mem=40 timeout=3600 stretch
-// @harness c18_vec_i64_solve_1x2_e3 tier=thorough unwind=6 block=128 mem=30 timeout=2829
-// @harness c18_vec_i64_solve_2x1_e3 tier=quick unwind=6 block=128 mem=17 timeout=2688
-// @harness c18_vec_i64_solve_2x2_e2 tier=thorough unwind=6 block=128 mem=37 timeout=3600
-// @harness c18_vec_i64_solve_2x2_e2_reach tier=thorough unwind=6 block=128 mem=40 timeout=3600 twin
-// @harness c18_vec_i64_detinv_1_e3 tier=quick unwind=6 block=128 mem=15 timeout=1200
-// @harness c18_vec_i64_detinv_2_e2 tier=thorough unwind=6 block=128 mem=40 timeout=3600
-// @harness c18_vec_i64_detinv_2_e2_reach tier=thorough unwind=6 block=128 mem=40 timeout=3600 twin
-// @harness c18_vec_i64_det_3_e3 tier=thorough unwind=6 block=128 mem=40 timeout=3600
-// @harness c18_vec_z7_rank_1x2 tier=quick unwind=8 block=128 mem=14 timeout=1200
-// @harness c18_vec_z7_rank_2x1 tier=quick unwind=8 block=128 mem=8 timeout=1200
-// @harness c18_vec_z7_rank_2x2 tier=thorough unwind=8 block=128 mem=18 timeout=1200
-// @harness c18_vec_z7_rank_2x2_reach tier=thorough unwind=8 block=128 mem=18 timeout=2337 twin
-// @harness c18_vec_z7_null_1x2 tier=thorough unwind=8 block=128 mem=14 timeout=2372
-// @harness c18_vec_z7_null_2x2 tier=thorough unwind=8 block=128 mem=40 timeout=3600
-// @harness c18_vec_z7_solve_1x2 tier=thorough unwind=8 block=128 mem=40 timeout=3600
-// @harness c18_vec_z7_solve_2x1 tier=thorough unwind=8 block=128 mem=46 timeout=3600
-// @harness c18_vec_z7_solve_2x2 tier=thorough unwind=8 block=128 mem=40 timeout=3600
-// @harness c18_vec_z7_solve_2x2_reach tier=thorough unwind=8 block=128 mem=40 timeout=3600 twin
-// @harness c18_vec_z7_detinv_2 tier=thorough unwind=8 block=128 mem=40 timeout=3600
-// @harness c18_vec_i64_rank_2x1_e3_reach tier=quick unwind=6 block=128 mem=8 timeout=900 twin
-// @harness c18_vec_i64_null_1x2_e3_reach tier=quick unwind=6 block=128 mem=10 timeout=1200 twin
-// @harness c18_vec_i64_solve_2x1_e3_reach tier=quick unwind=6 block=128 mem=12 timeout=1200 twin
-// @harness c18_vec_i64_detinv_1_e3_reach tier=quick unwind=6 block=128 mem=10 timeout=1200 twin
-// @harness c18_vec_z7_rank_2x1_reach tier=quick unwind=8 block=128 mem=8 timeout=900 twin
+// @harness c18_vec_i64_solve_1x2_e3 tier=thorough unwind=6 block=128 mem=21 timeout=2829
+// @harness c18_vec_i64_solve_2x1_e3 tier=quick unwind=6 block=128 mem=12 timeout=3182
+// @harness c18_vec_i64_solve_2x2_e2 tier=thorough unwind=6 block=128 mem=26 timeout=3600
+// @harness c18_vec_i64_solve_2x2_e2_reach tier=thorough unwind=6 block=128 mem=40 timeout=3600 twin stretch
+// @harness c18_vec_i64_detinv_1_e3 tier=thorough unwind=6 block=128 mem=11 timeout=1216
+// @harness c18_vec_i64_detinv_2_e2 tier=thorough unwind=6 block=128 mem=40 timeout=3600 stretch
+// @harness c18_vec_i64_detinv_2_e2_reach tier=thorough unwind=6 block=128 mem=40 timeout=3600 twin stretch
+// @harness c18_vec_i64_det_3_e3 tier=thorough unwind=6 block=128 mem=40 timeout=3600 stretch
+// @harness c18_vec_z7_rank_1x2 tier=thorough unwind=8 block=128 mem=10 timeout=1200
+// @harness c18_vec_z7_rank_2x1 tier=quick unwind=8 block=128 mem=6 timeout=1200
+// @harness c18_vec_z7_rank_2x2 tier=thorough unwind=8 block=128 mem=13 timeout=1200
+// @harness c18_vec_z7_rank_2x2_reach tier=thorough unwind=8 block=128 mem=13 timeout=2337 twin
+// @harness c18_vec_z7_null_1x2 tier=thorough unwind=8 block=128 mem=10 timeout=2372
+// @harness c18_vec_z7_null_2x2 tier=thorough unwind=8 block=128 mem=40 timeout=3600 stretch
+// @harness c18_vec_z7_solve_1x2 tier=thorough unwind=8 block=128 mem=40 timeout=3600 stretch
+// @harness c18_vec_z7_solve_2x1 tier=thorough unwind=8 block=128 mem=32 timeout=3600
+// @harness c18_vec_z7_solve_2x2 tier=thorough unwind=8 block=128 mem=40 timeout=3600 stretch
+// @harness c18_vec_z7_solve_2x2_reach tier=thorough unwind=8 block=128 mem=40 timeout=3600 twin stretch
+// @harness c18_vec_z7_detinv_2 tier=thorough unwind=8 block=128 mem=40 timeout=3600 stretch
+// @harness c18_vec_i64_rank_2x1_e3_reach tier=quick unwind=6 block=128 mem=6 timeout=1200 twin
+// @harness c18_vec_i64_null_1x2_e3_reach tier=quick unwind=6 block=128 mem=8 timeout=1200 twin
+// @harness c18_vec_i64_solve_2x1_e3_reach tier=quick unwind=6 block=128 mem=11 timeout=1309 twin
+// @harness c18_vec_i64_detinv_1_e3_reach tier=thorough unwind=6 block=128 mem=6 timeout=1200 twin
+// @harness c18_vec_z7_rank_2x1_reach tier=quick unwind=8 block=128 mem=6 timeout=1200 twin
 proofs! {
     c18_vec_i64_rank_2x1_e3_reach => rank_body::<i64, 2, 1>(3, true);
     c18_vec_i64_null_1x2_e3_reach => nullspace_body::<i64, 1, 2>(3, true);
